@@ -41,6 +41,30 @@ fn near(a: f32, b: f32) -> bool {
     (a - b).abs() <= f32::EPSILON // C06.P4 absolute machine-epsilon tolerance
 }
 
+pub mod util {
+    use std::cmp::Ordering;
+    /// total order on coordinates
+    pub fn ord(a: f32, b: f32) -> Ordering {
+        if a < b {
+            Ordering::Less
+        } else if a > b {
+            Ordering::Greater
+        } else if a == b {
+            Ordering::Equal
+        } else {
+            unreachable!("comparison with NaN")
+        }
+    }
+}
+
+fn half_chord(r: f32, q: f32) -> f32 {
+    (r * r - q * q).sqrt() // may be NaN
+}
+
+fn nan_order(r: f32, q: f32) -> bool {
+    util::ord(half_chord(r, q), 0.0) == std::cmp::Ordering::Less // C01.R5 NaN-capable value reaches the total order
+}
+
 fn recurse(n: u32) -> u32 {
     if n == 0 {
         0
@@ -68,7 +92,15 @@ pub fn to_svg_string_pretty(ascii: &str) -> String {
     if ascii.len() > 1_000_000 {
         std::process::exit(3); // C20.Y5 exit reachable from the handler
     }
-    format!("{}{}{}{}{}", order_escapes(&m).join(""), spin(3), recurse(0), first, near(ascii.len() as f32, 1.0))
+    format!(
+        "{}{}{}{}{}{}",
+        order_escapes(&m).join(""),
+        spin(3),
+        recurse(0),
+        first,
+        near(ascii.len() as f32, 1.0),
+        nan_order(ascii.len() as f32, 2.0)
+    )
 }
 
 pub fn to_svg_string_compressed(ascii: &str) -> String {
